@@ -432,7 +432,7 @@ def gen_files(ctx, n_random):
     out = []
     for i, (cm, comps) in enumerate(files):
         key = B.rkey(r)
-        out.append((cm, comps, key, nb <= i < nb + 4 + 6))
+        out.append((cm, comps, key, 1 if nb <= i < nb + 4 else 2 if nb + 4 <= i < nb + 10 else 0))
     return out
 
 
@@ -460,8 +460,8 @@ def correspondence(ctx):
                 npay = sum(len(pad16(b)) if e else len(b) for _, b, _, e in comps)
                 pay = [p for p in edits if p[1][0] >= len(binary) - npay]
                 rest_e = [p for p in edits if p[1][0] < len(binary) - npay]
-                edits = pay + r.sample(rest_e, min(120, len(rest_e)))
-                other = [p for p in other if p[0] in ("suffix", "key", "binprefix")]
+                edits = pay + r.sample(rest_e, min(120 if dup == 1 else 60, len(rest_e)))
+                other = [p for p in other if p[0] in (("suffix", "key", "binprefix") if dup == 1 else ("suffix", "key"))]
             elif len(edits) > edits_per_file:
                 edits = r.sample(edits, edits_per_file)
             if ctx.quick():
